@@ -4,6 +4,7 @@ package openflow13
 
 import (
 	"encoding/binary"
+	"errors"
 
 	"github.com/contiv/libOpenflow/common"
 	log "github.com/sirupsen/logrus"
@@ -104,6 +105,9 @@ func (g *GroupMod) MarshalBinary() (data []byte, err error) {
 
 func (g *GroupMod) UnmarshalBinary(data []byte) error {
 	n := 0
+	if len(data) < 16 {
+		return errors.New("the []byte is too short to unmarshal a GroupMod header")
+	}
 	g.Header.UnmarshalBinary(data[n:])
 	n += int(g.Header.Len())
 
@@ -116,9 +120,14 @@ func (g *GroupMod) UnmarshalBinary(data []byte) error {
 	g.GroupId = binary.BigEndian.Uint32(data[n:])
 	n += 4
 
+	if int(g.Header.Length) > len(data) {
+		return errors.New("the group-mod length exceeds the []byte")
+	}
 	for n < int(g.Header.Length) {
 		bkt := new(Bucket)
-		bkt.UnmarshalBinary(data[n:])
+		if err := bkt.UnmarshalBinary(data[n:g.Header.Length]); err != nil {
+			return err
+		}
 		g.Buckets = append(g.Buckets, *bkt)
 		n += int(bkt.Len())
 	}
@@ -195,8 +204,14 @@ func (b *Bucket) MarshalBinary() (data []byte, err error) {
 
 func (b *Bucket) UnmarshalBinary(data []byte) error {
 	n := 0
+	if len(data) < 16 {
+		return errors.New("the []byte is too short to unmarshal a Bucket header")
+	}
 	b.Length = binary.BigEndian.Uint16(data[n:])
 	n += 2
+	if b.Length < 16 || b.Length%8 != 0 || int(b.Length) > len(data) {
+		return errors.New("the bucket length does not fit the []byte")
+	}
 	b.Weight = binary.BigEndian.Uint16(data[n:])
 	n += 2
 	b.WatchPort = binary.BigEndian.Uint32(data[n:])
@@ -206,7 +221,7 @@ func (b *Bucket) UnmarshalBinary(data []byte) error {
 	n += 4 // for padding
 
 	for n < int(b.Length) {
-		a, err := DecodeAction(data[n:])
+		a, err := DecodeAction(data[n:b.Length])
 		if err != nil {
 			return err
 		}
